@@ -125,6 +125,35 @@ Proof.
   apply N.eqb_eq in H2. apply Bool.eqb_prop in H3. auto.
 Qed.
 
+
+(* sweeps for the other pipes *)
+Lemma clearp_fact n p : (n < 64)%N -> 1 <= p <= 5 ->
+  let v := Z.land (Z.of_N n) (Z.lnot (Z.shiftl 1 p)) in
+  rt63 v = true /\ N.testbit (N.land (Z.to_N v) 63) 0 = N.testbit n 0.
+Proof.
+  intros Hn Hp. cbv zeta.
+  pose proof (sw64 (fun n => forallb (fun p => let v := Z.land (Z.of_N n) (Z.lnot (Z.shiftl 1 p)) in
+                       rt63 v && Bool.eqb (N.testbit (N.land (Z.to_N v) 63) 0) (N.testbit n 0)) [1; 2; 3; 4; 5])
+                   ltac:(vm_compute; reflexivity) n Hn) as H.
+  cbv beta in H. rewrite forallb_forall in H.
+  assert (Hin : In p [1; 2; 3; 4; 5]) by (cbn; lia).
+  specialize (H p Hin). cbv zeta in H. apply andb_true_iff in H. destruct H as [H1 H2].
+  apply Bool.eqb_prop in H2. auto.
+Qed.
+Lemma setp_fact n p : (n < 64)%N -> 1 <= p <= 5 ->
+  let v := Z.lor (Z.of_N n) (Z.shiftl 1 p) in
+  rt63 v = true /\ N.testbit (N.land (Z.to_N v) 63) 0 = N.testbit n 0.
+Proof.
+  intros Hn Hp. cbv zeta.
+  pose proof (sw64 (fun n => forallb (fun p => let v := Z.lor (Z.of_N n) (Z.shiftl 1 p) in
+                       rt63 v && Bool.eqb (N.testbit (N.land (Z.to_N v) 63) 0) (N.testbit n 0)) [1; 2; 3; 4; 5])
+                   ltac:(vm_compute; reflexivity) n Hn) as H.
+  cbv beta in H. rewrite forallb_forall in H.
+  assert (Hin : In p [1; 2; 3; 4; 5]) by (cbn; lia).
+  specialize (H p Hin). cbv zeta in H. apply andb_true_iff in H. destruct H as [H1 H2].
+  apply Bool.eqb_prop in H2. auto.
+Qed.
+
 (* bit 0 of a cached byte = bit 0 of the register it mirrors *)
 Lemma bit0_cached n : (n < 256)%N -> truthy (Z.land (Z.of_N n) 1) = N.testbit n 0.
 Proof. intros H. apply bit0_of_truthy. exact H. Qed.
@@ -510,26 +539,143 @@ Proof.
     repeat split; try assumption; try reflexivity; try discriminate. apply Q3. reflexivity.
 Qed.
 
+Lemma Forall_firstn' {A} (P : A -> Prop) : forall n l, Forall P l -> Forall P (firstn n l).
+Proof. induction n as [|n IH]; intros [|x t] H; cbn; try constructor; inversion H; subst; auto. Qed.
+Lemma Forall_skipn' {A} (P : A -> Prop) : forall n l, Forall P l -> Forall P (skipn n l).
+Proof. induction n as [|n IH]; intros [|x t] H; cbn; try constructor; inversion H; subst; auto. Qed.
+
+(* ---- close_rx_pipe(p), open_rx_pipe(p, a) for the other pipes: pipe 0 and the TX address are not involved ---- *)
+Lemma closeN_inv d c p : HInv d c -> 1 <= p <= 5 ->
+  exists d' c', close_rx_pipe CB p d c = (Ok tt, d', c')
+    /\ HInv d' c' /\ d_pipe0_read_addr d' = d_pipe0_read_addr d
+    /\ c_ce c' = c_ce c /\ c_p0 c' = c_p0 c /\ c_tx c' = c_tx c.
+Proof.
+  intros H Hp. pose proof H as ((Hw&Hd&Hp0&Htx&Hop&Haa&Hcf&Hrd)&B0&B1&B2).
+  pose proof Hd as (D1&D2&D3&D4&D5&D6&D7&D8&D9&D10&D11&D12&D13&D14&D15).
+  unfold close_rx_pipe.
+  replace ((p <? 0) || (5 <? p)) with false by (symmetry; apply orb_false_iff; split; [apply Z.ltb_ge|apply Z.ltb_ge]; lia).
+  cbv iota. mstep sd. change (Z.to_N 2) with 2%N. rewrite (cread_plain c 2) by reflexivity. cbn [hd].
+  destruct (clearp_fact _ p B2 Hp) as [F1 F2]. cbv zeta in F1, F2.
+  destruct (rt63_use _ F1) as (R1&R2&R3).
+  mstep sd. replace (p =? 0) with false by (symmetry; apply Z.eqb_neq; lia). cbv iota. mstep sd.
+  rewrite reg_write_c by (first [rng|exact R1]).
+  eexists _, _. split; [reflexivity|].
+  change (Z.to_N 2) with 2%N. rewrite cwrite_r2.
+  set (v := Z.land (Z.of_N (creg c 2)) (Z.lnot (Z.shiftl 1 p))) in *.
+  split; [|dsimp; csimp; repeat split; reflexivity].
+  split; [|regs_norm Hw; auto].
+  unfold PInv. dsimp. split; [apply WfC_cset; exact Hw|]. split; [drvok|].
+  regs_norm Hw. csimp. repeat split; try assumption.
+  all: match goal with Hx : _ = Some ?i |- _ => destruct (Hrd _ Hx) as [? Hbit]; first [assumption|rewrite F2; exact Hbit] end.
+Qed.
+
+Lemma openrxN_inv d c p a : HInv d c -> 1 <= p <= 5 -> (1 <= length a <= 5)%nat -> (hd 0%N a < 256)%N ->
+  exists d' c', open_rx_pipe CB p a d c = (Ok tt, d', c')
+    /\ HInv d' c' /\ d_pipe0_read_addr d' = d_pipe0_read_addr d
+    /\ c_ce c' = c_ce c /\ c_p0 c' = c_p0 c /\ c_tx c' = c_tx c.
+Proof.
+  intros H Hp Hl Ha. pose proof H as ((Hw&Hd&Hp0&Htx&Hop&Haa&Hcf&Hrd)&B0&B1&B2).
+  pose proof Hw as (W1&W2&W3&W4&W5).
+  pose proof Hd as (D1&D2&D3&D4&D5&D6&D7&D8&D9&D10&D11&D12&D13&D14&D15).
+  destruct a as [|a0 at_]; [cbn in Hl; lia|]. cbn [hd] in Ha.
+  destruct (setp_fact _ p B2 Hp) as [F1 F2]. cbv zeta in F1, F2.
+  destruct (rt63_use _ F1) as (R1&R2&R3).
+  unfold open_rx_pipe.
+  replace (negb ((0 <=? p) && (p <=? 5))) with false
+    by (symmetry; apply negb_false_iff; apply andb_true_iff; split; apply Z.leb_le; lia).
+  cbv iota.
+  (* the tail of the call, on any state that satisfies the invariant and has the registers 0..2 of c *)
+  assert (Tail : forall dd cc, HInv dd cc -> creg cc 2 = creg c 2 ->
+            exists d' c', bind (reg_read CB 2) (fun op => let v := Z.lor op (Z.shiftl 1 p) in
+                            bind (modify (upd_open_pipes v)) (fun _ => reg_write CB 2 v)) dd cc = (Ok tt, d', c')
+              /\ HInv d' c' /\ d_pipe0_read_addr d' = d_pipe0_read_addr dd
+              /\ c_ce c' = c_ce cc /\ c_p0 c' = c_p0 cc /\ c_tx c' = c_tx cc).
+  { intros dd cc HI C2. pose proof HI as ((Hw2&Hd2&Hp2&Htx2&Hop2&Haa2&Hcf2&Hrd2)&B02&B12&B22).
+    pose proof Hd2 as (X1&X2&X3&X4&X5&X6&X7&X8&X9&X10&X11&X12&X13&X14&X15).
+    mstep sd. change (Z.to_N 2) with 2%N. rewrite (cread_plain cc 2) by reflexivity. cbn [hd]. cbv zeta. rewrite C2.
+    mstep sd. rewrite reg_write_c by (first [rng|exact R1]).
+    eexists _, _. split; [reflexivity|]. change (Z.to_N 2) with 2%N. rewrite cwrite_r2.
+    split; [|dsimp; csimp; repeat split; reflexivity].
+    split; [|regs_norm Hw2; auto].
+    unfold PInv. dsimp. split; [apply WfC_cset; exact Hw2|]. split; [drvok|].
+    regs_norm Hw2. csimp. repeat split; try assumption.
+    all: match goal with Hx : _ = Some ?i |- _ => destruct (Hrd2 _ Hx) as [? Hbit]; first [assumption|rewrite F2, <- C2; exact Hbit] end. }
+  destruct (p <? 2) eqn:Ep2.
+  - (* pipe 1 *)
+    assert (p = 1) by (apply Z.ltb_lt in Ep2; lia). subst p.
+    mstep sd. change (1 =? 0) with false. cbv iota. rewrite !bind_assoc.
+    assert (Hov : overlay_into (a0 :: at_) (d_pipe1 d) d c = (Ok (overlay (a0 :: at_) (d_pipe1 d)), d, c)).
+    { unfold overlay_into. replace (Nat.leb (length (a0 :: at_)) (length (d_pipe1 d))) with true
+        by (symmetry; apply Nat.leb_le; lia).
+      destruct (overlay_prefix (a0 :: at_) (d_pipe1 d) ltac:(lia)) as [Ov1 _]. rewrite Ov1. reflexivity. }
+    erewrite bind_ok; [|exact Hov]. cbv beta.
+    mstep sd. change (10 + 1) with 11. mstep sd. change (Z.to_N 11) with 11%N.
+    assert (Hc1 : cwrite c 11 (a0 :: at_) = cset_addrs c (c_p0 c) (overlay (a0 :: at_) (c_p1 c)) (c_tx c)) by reflexivity.
+    rewrite Hc1.
+    set (dd := upd_in0 0 (upd_pipe1 (overlay (a0 :: at_) (d_pipe1 d)) d)).
+    set (cc := cset_addrs c (c_p0 c) (overlay (a0 :: at_) (c_p1 c)) (c_tx c)).
+    assert (HI : HInv dd cc).
+    { unfold dd, cc. split; [|rewrite !creg_cset_addrs; auto].
+      eapply PInv_deq; [apply deq_in0|]. unfold PInv. dsimp.
+      split; [unfold WfC; csimp; rewrite overlay_length; auto|].
+      split; [apply DrvOk_intro; dsimpg; first [assumption | rewrite overlay_length; assumption]|].
+      rewrite !creg_cset_addrs. csimp. repeat split; try assumption. all: rdfin Hrd. }
+    destruct (Tail dd cc HI eq_refl) as (d'&c'&E&HI'&Er&PC&P0&PT).
+    exists d', c'. split; [exact E|]. split; [exact HI'|]. rewrite Er, PC, P0, PT. unfold dd, cc. dsimp. csimp.
+    repeat split; reflexivity.
+  - (* pipes 2..5 *)
+    apply Z.ltb_ge in Ep2.
+    mstep sd. mstep sd.
+    assert (Hb : 0 <= Z.of_N a0 <= 255) by lia.
+    mstep sd. 
+    set (dd := upd_in0 0 (upd_pipes25 (firstn (Z.to_nat (p - 2)) (d_pipes25 d) ++ [Z.of_N a0]
+                                       ++ skipn (Z.to_nat (p - 2) + 1) (d_pipes25 d)) d)).
+    set (cc := cwrite c (Z.to_N (10 + p)) [Z.to_N (Z.of_N a0)]).
+    assert (Hcc : cc = cset c (Z.to_N (10 + p)) (N.land (Z.to_N (Z.of_N a0)) 255)).
+    { unfold cc. assert (Hc : p = 2 \/ p = 3 \/ p = 4 \/ p = 5) by lia.
+      destruct Hc as [->|[->|[->| ->]]]; reflexivity. }
+    assert (Hne : Z.to_N (10 + p) <> 0%N /\ Z.to_N (10 + p) <> 1%N /\ Z.to_N (10 + p) <> 2%N) by lia.
+    destruct Hne as (N0&N1&N2).
+    assert (HI : HInv dd cc).
+    { rewrite Hcc. unfold dd. split; [|rewrite !creg_cset_other by assumption; auto].
+      eapply PInv_deq; [apply deq_in0|]. unfold PInv. dsimp.
+      split; [apply WfC_cset; exact Hw|].
+      split.
+      { apply DrvOk_intro; dsimpg; try assumption.
+        - rewrite !app_length, firstn_length, skipn_length. cbn [length]. rewrite D14. lia.
+        - apply Forall_app. split; [apply Forall_firstn'; exact D15|].
+          apply Forall_app. split; [constructor; [exact Hb|constructor]|apply Forall_skipn'; exact D15]. }
+      rewrite !creg_cset_other by assumption. csimp. repeat split; try assumption. all: rdfin Hrd. }
+    assert (C2 : creg cc 2 = creg c 2) by (rewrite Hcc; apply creg_cset_other; assumption).
+    destruct (Tail dd cc HI C2) as (d'&c'&E&HI'&Er&PC&P0&PT).
+    exists d', c'. split; [exact E|]. split; [exact HI'|]. rewrite Er, PC, P0, PT. rewrite Hcc. unfold dd. dsimp. csimp.
+    repeat split; reflexivity.
+Qed.
+
 Local Transparent bind.
 
 (* ================= histories ================= *)
 Inductive pop :=
-| OpOpenRx0 (a : list N)      (* open_rx_pipe(0, a) *)
-| OpCloseRx0                  (* close_rx_pipe(0) *)
-| OpOpenTx (a : list N)       (* open_tx_pipe(a) *)
-| OpListen (b : bool)         (* listen = b *)
-| OpAutoAck (b : bool).       (* auto_ack = b *)
+| OpOpenRx (p : Z) (a : list N)   (* open_rx_pipe(p, a) *)
+| OpCloseRx (p : Z)               (* close_rx_pipe(p) *)
+| OpOpenTx (a : list N)           (* open_tx_pipe(a) *)
+| OpListen (b : bool)             (* listen = b *)
+| OpAutoAck (b : bool).           (* auto_ack = b *)
 
+(* calls the driver accepts: pipes 0..5, 1..5 address bytes (for pipes 2..5 only the first byte is used; it has to
+   be a byte) *)
 Definition pop_ok (o : pop) : Prop :=
   match o with
-  | OpOpenRx0 a | OpOpenTx a => (1 <= length a <= 5)%nat
+  | OpOpenRx p a => 0 <= p <= 5 /\ (1 <= length a <= 5)%nat /\ (p = 0 \/ (hd 0%N a < 256)%N)
+  | OpCloseRx p => 0 <= p <= 5
+  | OpOpenTx a => (1 <= length a <= 5)%nat
   | _ => True
   end.
 
 Definition run_pop {bus} (B : busops bus) (o : pop) : M unit :=
   match o with
-  | OpOpenRx0 a => open_rx_pipe B 0 a
-  | OpCloseRx0 => close_rx_pipe B 0
+  | OpOpenRx p a => open_rx_pipe B p a
+  | OpCloseRx p => close_rx_pipe B p
   | OpOpenTx a => open_tx_pipe B a
   | OpListen b => set_listen B b
   | OpAutoAck b => set_auto_ack_attr B (PBool b)
@@ -539,8 +685,8 @@ Definition run_pop {bus} (B : busops bus) (o : pop) : M unit :=
    open_rx_pipe(0, a); None if the user never opened pipe 0 or has closed it *)
 Definition ghost (o : pop) (g : option (list N)) (c : cfg) : option (list N) :=
   match o with
-  | OpOpenRx0 a => Some (overlay a (c_p0 c))
-  | OpCloseRx0 => None
+  | OpOpenRx p a => if p =? 0 then Some (overlay a (c_p0 c)) else g
+  | OpCloseRx p => if p =? 0 then None else g
   | _ => g
   end.
 
@@ -559,7 +705,8 @@ Definition post (o : pop) (g : option (list N)) (c c' : cfg) : Prop :=
       firstn (length a) (c_tx c') = a /\ c_tx c' = overlay a (c_tx c) /\ c_ce c' = c_ce c
       /\ (N.testbit (creg c 1) 0 = true ->
             c_p0 c' = c_tx c' /\ (N.testbit (creg c 0) 0 = false -> N.testbit (creg c' 2) 0 = true))
-  | OpOpenRx0 a => c_p0 c' = overlay a (c_p0 c) /\ c_ce c' = c_ce c /\ c_tx c' = c_tx c
+  | OpOpenRx p a =>
+      c_ce c' = c_ce c /\ c_tx c' = c_tx c /\ c_p0 c' = (if p =? 0 then overlay a (c_p0 c) else c_p0 c)
   | _ => c_ce c' = c_ce c /\ c_tx c' = c_tx c /\ c_p0 c' = c_p0 c
   end.
 
@@ -567,11 +714,19 @@ Lemma step_inv o g d c : HInv d c -> d_pipe0_read_addr d = g -> pop_ok o ->
   exists d' c', run_pop CB o d c = (Ok tt, d', c')
     /\ HInv d' c' /\ d_pipe0_read_addr d' = ghost o g c /\ post o g c c'.
 Proof.
-  intros H Hg Hok. destruct o as [a| |a|b|b]; cbn [run_pop ghost post pop_ok] in *.
-  - destruct (openrx0_inv d c a H Hok) as (d'&c'&E&HI&Er&P0&Pf&Pce&Ptx&_).
-    exists d', c'. split; [exact E|]. split; [exact HI|]. split; [rewrite Er, P0; reflexivity|]. repeat split; assumption.
-  - destruct (close0_inv d c H) as (d'&c'&E&HI&Er&Pce&P0&Ptx).
-    exists d', c'. split; [exact E|]. split; [exact HI|]. split; [exact Er|]. repeat split; assumption.
+  intros H Hg Hok. destruct o as [p a|p|a|b|b]; cbn [run_pop ghost post pop_ok] in *.
+  - destruct Hok as (Hp&Hl&Hb).
+    destruct (Z.eqb_spec p 0) as [->|Hne].
+    + destruct (openrx0_inv d c a H Hl) as (d'&c'&E&HI&Er&P0&Pf&Pce&Ptx&_).
+      exists d', c'. split; [exact E|]. split; [exact HI|]. split; [rewrite Er, P0; reflexivity|]. repeat split; assumption.
+    + destruct Hb as [Hb|Hb]; [contradiction|].
+      destruct (openrxN_inv d c p a H ltac:(lia) Hl Hb) as (d'&c'&E&HI&Er&Pce&P0&Ptx).
+      exists d', c'. split; [exact E|]. split; [exact HI|]. split; [rewrite Er; exact Hg|]. repeat split; assumption.
+  - destruct (Z.eqb_spec p 0) as [->|Hne].
+    + destruct (close0_inv d c H) as (d'&c'&E&HI&Er&Pce&P0&Ptx).
+      exists d', c'. split; [exact E|]. split; [exact HI|]. split; [exact Er|]. repeat split; assumption.
+    + destruct (closeN_inv d c p H ltac:(lia)) as (d'&c'&E&HI&Er&Pce&P0&Ptx).
+      exists d', c'. split; [exact E|]. split; [exact HI|]. split; [rewrite Er; exact Hg|]. repeat split; assumption.
   - destruct (opentx_inv d c a H Hok) as (d'&c'&E&HI&Er&Ptx&Pf&Pce&_&_&Pa&_).
     exists d', c'. split; [exact E|]. split; [exact HI|]. split; [rewrite Er; exact Hg|]. repeat split; try assumption; apply Pa; assumption.
   - destruct (listen_inv d c b H) as (d'&c'&E&HI&Er&Pce&Pr&Ptx&_&Prx&Ptxm).
